@@ -1179,6 +1179,75 @@ func runIndexGuard(p *Program, r *Report, a *verifyAnchors) {
 		}
 	}
 	r.Floor("R04e", "computed indexes in the matching verifiers", m, 4)
+
+	// The mirror image of the first part: a slice the library computed, indexed
+	// by a counter whose only bound is the length of a caller-supplied slice.
+	// Verification tolerates surplus elements in the caller's lists (it bounds
+	// them from below only), so even behind a successful verification nothing
+	// bounds that length from above.
+	k := 0
+	for _, fn := range sortedFuncs(p, a.vc) {
+		name := p.FuncName(fn)
+		ord := map[string]int{}
+		for _, b := range fn.Blocks {
+			for _, in := range b.Instrs {
+				ia, ok := in.(*ssa.IndexAddr)
+				if !ok {
+					continue
+				}
+				if _, isSlice := ia.X.Type().Underlying().(*types.Slice); !isSlice {
+					continue
+				}
+				if _, isConst := ia.Index.(*ssa.Const); isConst {
+					continue
+				}
+				if callerSuppliedSlice(fn, ia.X, supplied[fn]) != "" {
+					continue
+				}
+				// the lengths that bound the index: loop tests and dominating guards idx < len(Y)
+				var bounds []ssa.Value
+				if ia.Index.Referrers() != nil {
+					for _, ref := range *ia.Index.Referrers() {
+						if bo, ok := ref.(*ssa.BinOp); ok && bo.Op == token.LSS && bo.X == ia.Index {
+							if y, ok := lenArg(bo.Y); ok {
+								bounds = append(bounds, y)
+							}
+						}
+					}
+				}
+				gs := guardsAtInstr(ia)
+				isIdx := func(v ssa.Value) bool { return v == ia.Index }
+				isLenSame := func(v ssa.Value) bool { s, ok := lenArg(v); return ok && sameValue(s, ia.X) }
+				if _, ok := holdsRel(gs, []token.Token{token.LSS}, isIdx, isLenSame); ok {
+					continue
+				}
+				ownBound := false
+				var foreign ssa.Value
+				fsrc := ""
+				for _, y := range bounds {
+					if sameValue(y, ia.X) {
+						ownBound = true
+					} else if s := callerSuppliedSlice(fn, y, supplied[fn]); s != "" {
+						foreign, fsrc = y, s
+					}
+				}
+				if ownBound || foreign == nil {
+					continue
+				}
+				k++
+				src := exprName(ia.X)
+				ord[src]++
+				key := fmt.Sprintf("%s/computed:%s[%d]", name, src, ord[src])
+				isOther := func(v ssa.Value) bool { a1, ok := lenArg(v); return ok && sameValue(a1, foreign) }
+				if _, ok := holdsRel(gs, []token.Token{token.GEQ, token.EQL, token.GTR}, isLenSame, isOther); ok {
+					r.Discharge("R04e", key, posOf(p, ia), "index is bounded by the length of the caller's "+fsrc+" and a dominating test relates the two lengths", true)
+				} else {
+					r.Violate("R04e", key, posOf(p, ia), "the computed slice "+src+" is indexed by a counter whose only bound is the length of the caller-supplied "+fsrc+": verification tolerates surplus elements there, so a longer input overruns "+src+" and panics", "in "+name)
+				}
+			}
+		}
+	}
+	r.Stats["index.computed_by_caller_length"] = k
 }
 
 // suppliedParams computes the (function, parameter) pairs that carry values
